@@ -272,6 +272,38 @@ def isrot2(R, check=False):
 
 # ---------------------------------------------------------------------------------------#
 
+def trnorm2(T):
+    r"""
+    Normalize an SO(2) or SE(2) matrix
+
+    :param T: SE(2) or SO(2) matrix
+    :type T: ndarray(3,3) or ndarray(2,2)
+    :return: normalized SE(2) or SO(2) matrix
+    :rtype: ndarray(3,3) or ndarray(2,2)
+    :raises ValueError: bad arguments
+
+    - ``trnorm2(R)`` is guaranteed to be a proper orthogonal matrix rotation
+      matrix (2,2) which is *close* to the input matrix R (2,2).
+    - ``trnorm2(T)`` as above but the rotational submatrix of the homogeneous
+      transformation T (3,3) is normalised while the translational part is
+      unchanged.
+
+    The direction of the second column (the y-axis) is kept and the first
+    column is made orthogonal to it.
+
+    :seealso: :func:`~spatialmath.base.transforms3d.trnorm`
+    """
+    if not ishom2(T) and not isrot2(T):
+        raise ValueError("expecting SO(2) or SE(2)")
+
+    y = base.unitvec(T[:2, 1])
+    R = np.array([[y[1], y[0]], [-y[0], y[1]]])
+
+    if ishom2(T):
+        return base.rt2tr(R, T[:2, 2])
+    else:
+        return R
+
 def trinv2(T):
     r"""
     Invert an SE(2) matrix
